@@ -30,6 +30,8 @@ def mtime_for(policy, graph, rel, variant, hist):
         # mtimes alternate between two values whatever the content is (files restored from an archive / a branch switch):
         # the third revision carries the mtime of the first
         return mtime_for('content-bound', graph, rel, 'v0', []) + (10 if n_edits % 2 == 0 else 0)
+    if policy in ('grammar', 'symlink'):
+        return BASE_MTIME + 100000 + 10 * (n_edits + 1)
     if policy == 'subsecond':
         # successive saves within one wall-clock second (the initial file sits at the start of that second)
         return mtime_for('content-bound', graph, rel, 'v0', []) + 0.125 * (n_edits + 1)
@@ -39,10 +41,14 @@ def mtime_for(policy, graph, rel, variant, hist):
 def init_state(graph, policy):
     def init(d):
         globs = wsgraphs.INPUT_GLOBS.get(graph, ['proj/*.py'])
-        ws = Workspace.create(d, input_globs=tuple(globs))
+        ws = Workspace.create(d, input_globs=tuple(globs), project_grammar=(policy == 'grammar'))
         ws.write_config(globs, ['out/'], cache_enabled=False, name='config_nocache.yml')
         seed_library_cache(ws)
         for rel, variants in wsgraphs.GRAPHS[graph].items():
+            if policy == 'symlink' and rel == sorted(wsgraphs.GRAPHS[graph])[0]:
+                # the module file is a symbolic link to a file kept elsewhere in the project
+                os.makedirs(os.path.join(d, 'shared'), exist_ok=True)
+                os.symlink(os.path.join('..', 'shared', os.path.basename(rel)), os.path.join(d, rel))
             ws.write_source(rel, variants['v0'], mtime_for('content-bound', graph, rel, 'v0', []))
         return ws
     return init
@@ -50,6 +56,8 @@ def init_state(graph, policy):
 
 def ops_of(graph, policy='content-bound'):
     def f(hist):
+        if policy == 'grammar':
+            return [['run-f'], ['edit-grammar', 'g1'], ['edit-grammar', 'g0'], ['edit-grammar', 'g2'], ['edit-grammar', 'g3']]
         if policy == 'recycled':
             # a narrow alphabet so that depth 4 stays small: runs and edits of the base module only
             # (every revision is run before the next edit: an edit whose mtime equals that of a revision that is still
@@ -91,7 +99,7 @@ def apply_op(graph, policy):
         kind = op[0]
         if kind == 'run-f':
             r = ws.run(force=True)
-            if r[0] != 'ok':
+            if r[0] != 'ok' and policy != 'grammar':   # (a grammar edit may make the sources unparsable: the state invariant judges that)
                 return [(['run-fails', r[1], 'warm'], f'run -f failed: {r[1]}: {r[2]}')]
         elif kind == 'run-f-nocache':
             r, opened, changed, diff = nocache_run(ws)
@@ -109,6 +117,23 @@ def apply_op(graph, policy):
             clear_project_cache(ws)
         elif kind == 'edit':
             ws.write_source(op[1], wsgraphs.GRAPHS[graph][op[1]][op[2]], mtime_for(policy, graph, op[1], op[2], hist))
+        elif kind == 'edit-grammar':
+            # the project edits its own grammar file in place; the sources are not touched
+            from mc.core.runner import REPO
+            with open(os.path.join(REPO, 'data', 'grammar.lark')) as f:
+                text = f.read()
+            if op[1] == 'g1':    # one more augmented assignment operator (renumbers the anonymous terminals)
+                text = text.replace('!aug_assign_op: "+="', '!aug_assign_op: "??=" | "+="')
+            elif op[1] == 'g2':  # a comment only
+                text = '// project grammar\n' + text
+            elif op[1] == 'g3':  # a dialect in which functions are introduced by another keyword: the sources no longer parse
+                assert '"def"' in text
+                text = text.replace('"def"', '"defn"')
+            gp = os.path.join(ws.root, 'gram', 'grammar.lark')
+            with open(gp, 'w') as f:
+                f.write(text)
+            n = sum(1 for o in hist if o[0] == 'edit-grammar')
+            os.utime(gp, (BASE_MTIME + 777 + 10 * (n + 1), BASE_MTIME + 777 + 10 * (n + 1)))
         elif kind == 'edit-run':
             n = sum(1 for o in hist if o[0] == 'edit-run')
             ws.write_source(op[1], wsgraphs.GRAPHS[graph][op[1]][op[2]], mtime_for('content-bound', graph, op[1], 'v0', []) + (10 if n % 2 == 0 else 0))
@@ -148,6 +173,9 @@ def compare_warm_cold(ws, graph, hist, label, full_clear=False):
             clear_project_cache(b)
         ra, rb = a.run(True), b.run(True)
         if rb[0] != 'ok':
+            if ra[0] == 'ok':
+                # from an empty cache the run reports an error, with the cache files left behind it "succeeds"
+                return [(['warm-succeeds-cold-fails', label, rb[1]], f'from an empty cache the run fails with {rb[1]}: {str(rb[2])[:120]}; with the cache it writes {sorted(a.outputs())}')]
             return []      # the sources themselves are not transpilable: nothing to compare
         if ra[0] != 'ok':
             return []      # the warm run fails: allowed ("rebuilds it or fails")
@@ -177,7 +205,7 @@ def check_state(graph):
             # once per configuration: the seeded parser / library entries against a completely empty cache directory
             viol += compare_warm_cold(ws, graph, hist, 'initial-vs-empty-cache-dir', full_clear=True)
         dig = library_cache_digest(ws)
-        if _lib.setdefault('digest', dig) != dig and any('rogw' in c for c in ws.cache_files()):
+        if not _lib.get('project_grammar') and _lib.setdefault('digest', dig) != dig and any('rogw' in c for c in ws.cache_files()):
             viol.append((['library-cache-changed'], 'a parser / library cache entry differs from the one of the initial state'))
         return viol + compare_warm_cold(ws, graph, hist, 'state')
     return check
@@ -265,14 +293,15 @@ def truncation_layer(ctx, state_dirs, graph, every_offset: bool):
 
 def run(ctx):
     import rogw.tranp.bin.transpile  # noqa
-    configs = [('pair', 'content-bound'), ('chain3', 'content-bound'), ('prefix3', 'monotone'), ('pair', 'subsecond'), ('pair', 'recycled')] if ctx.quick else \
-        [('pair', 'content-bound'), ('pair', 'monotone'), ('chain3', 'content-bound'), ('chain3', 'monotone'), ('chain3p', 'monotone'), ('prefix3', 'monotone'), ('diamond4', 'content-bound'), ('pair', 'subsecond'), ('chain3', 'subsecond'), ('pair', 'recycled')]
+    configs = [('pair', 'content-bound'), ('chain3', 'content-bound'), ('prefix3', 'monotone'), ('pair', 'subsecond'), ('pair', 'recycled'), ('pair', 'grammar'), ('pair', 'symlink')] if ctx.quick else \
+        [('pair', 'content-bound'), ('pair', 'monotone'), ('chain3', 'content-bound'), ('chain3', 'monotone'), ('chain3p', 'monotone'), ('prefix3', 'monotone'), ('diamond4', 'content-bound'), ('pair', 'subsecond'), ('chain3', 'subsecond'), ('pair', 'recycled'), ('pair', 'grammar'), ('chain3', 'symlink')]
     total = {'states': 0, 'transitions': 0, 'truncations': 0}
     per = {}
     for graph, policy in configs:
         root = scratch_root('c05-')
-        depth = (3 if ctx.quick else 5) if policy == 'content-bound' else (4 if policy == 'recycled' else (2 if ctx.quick else 3))
+        depth = (3 if ctx.quick else 5) if policy == 'content-bound' else (4 if policy == 'recycled' else (3 if policy == 'grammar' else (2 if ctx.quick else 3)))
         _lib.clear()
+        _lib['project_grammar'] = policy == 'grammar'   # (a project grammar rebuilds parser and library entries: no fixed digest)
         try:
             stats, viols = wsexplore.explore(ctx, root, init_state(graph, policy), ops_of(graph, policy), apply_op(graph, policy), check_state(graph), depth, label=f'{graph}/{policy}')
             # crash points on a few representative reachable states that hold project cache files
